@@ -18,6 +18,10 @@ var imports []string
 
 func NewJavaIdentifierListener() *JavaIdentifierListener {
 	nodes = nil
+	// imports and flags belong to one file
+	imports = nil
+	isOverrideMethod = false
+	hasEnterClass = false
 	currentNode = core_domain.NewDataStruct()
 	currentMethod = core_domain.NewJMethod()
 	return &JavaIdentifierListener{}
